@@ -241,28 +241,36 @@ def skipLeaf (S : Store) (t : Tok) : R Tok :=
   | .ref i => do pure (.ref (← skipChain S (i + 1) i))
   | t => pure t
 
-/-- `_util._skip_id(output)`.  Containers are supported one level deep (a tuple / list whose children are leaves;
-that is what graph outputs and call arguments are); deeper nesting is `unsupported`. -/
-def skipId (S : Store) (v : List Tok) : R (List Tok) := do
-  let v ←
-    match v with
-    | [t] => if t.isOpen then pure [t] else do pure [← skipLeaf S t]
-    | .open_ .tuple n :: rest | .open_ .list n :: rest =>
-      if rest.any Tok.isOpen || rest.length != n then throw (.unsupported "nested container in _skip_id")
-      else do pure ((v.take 1) ++ (← rest.mapM (skipLeaf S)))
-    | _ => throw (.unsupported "container in _skip_id")
+/-- First half of `_util._skip_id(output)`: `_skip_id` of every child of a container.  Containers are supported one
+level deep (a tuple / list whose children are leaves; that is what graph outputs and call arguments are); deeper nesting is
+`unsupported`. -/
+def skipIdLeaves (S : Store) (v : List Tok) : R (List Tok) :=
+  match v with
+  | [t] => if t.isOpen then pure [t] else do pure [← skipLeaf S t]
+  | .open_ .tuple n :: rest | .open_ .list n :: rest =>
+    if rest.any Tok.isOpen || rest.length != n then throw (.unsupported "nested container in _skip_id")
+    else do pure ((v.take 1) ++ (← rest.mapM (skipLeaf S)))
+  | _ => throw (.unsupported "container in _skip_id")
+
+/-- Second half: `origin = origins[0]; if isinstance(origin, Cast) and pytree.all(id(x) == id(y), origin.output, output):
+return _skip_id(origin.input)`. -/
+def skipIdCast (S : Store) (v : List Tok) : R (List Tok) :=
   match firstRef v with
   | none => pure v
   | some i =>
     match S.appOf i with
     | some (a, base, _) =>
-      -- `isinstance(origin, Cast) and pytree.all(id(x) == id(y), origin.output, output)`
       if a.head == .cast && a.outAt base == v then
         match a.pre with
         | [[.ref j]] => do pure [.ref (← skipChain S (j + 1) j)]
         | _ => throw (.unsupported "Cast of something that is not a tracer")
       else pure v
     | none => pure v
+
+/-- `_util._skip_id(output)`. -/
+def skipId (S : Store) (v : List Tok) : R (List Tok) := do
+  let v' ← skipIdLeaves S v
+  skipIdCast S v'
 
 /-- `[x for x in inputs if isinstance(x, Tracer)]` of `Application.inputs`. -/
 def App.directInputs (a : App) : List Nat :=
@@ -324,110 +332,122 @@ def Pattern.fn? : Pattern → Option FnPat
   | .skipReshape f | .skipTranspose f | .skipBroadcastTo f | .skipConcatenate f => some f
   | _ => none
 
+/-- The common head of `SkipReshape` / `SkipTranspose` / `SkipBroadcastTo`: `x` is a call of the pattern's function,
+`input = x.origin.args[0]` is not a `Value`, `lit = x.origin.args[1]`. -/
+def unaryCallOf (S : Store) (pat : FnPat) (i : Nat) : R (Option (App × List Tok × List Tok)) :=
+  match S.callOf [.ref i] pat with
+  | none => pure none
+  | some a => do
+    let input ← argAt a 0
+    if S.isValue input then pure none else
+    let lit ← argAt a 1
+    pure (some (a, input, lit))
+
+/-- `isinstance(lit, tuple | list | np.ndarray) and <test on tuple(lit) and input.shape>`. -/
+def noopTest (S : Store) (input lit : List Tok) (test : List Nat → List Nat → Bool) : R Bool :=
+  if isSeq lit then do
+    let ishape ← S.shapeOf input
+    pure (match seqNats lit with | some s => test s ishape | none => false)
+  else pure false
+
+/-- `input = _skip_id(input); if self._is_result_of_call(input): …` -/
+def innerCall (S : Store) (pat : FnPat) (input : List Tok) : R (Option App) := do
+  let input' ← skipId S input
+  pure (S.callOf input' pat)
+
+def decideReshape (S : Store) (pat : FnPat) (i : Nat) : R (Option Action) := do
+  match ← unaryCallOf S pat i with
+  | none => pure none
+  | some (a, input, shape) =>
+    if ← noopTest S input shape Extracted.reshapeNoop then pure (some (.fwd input)) else
+    match ← innerCall S pat input with
+    | some a2 => do
+      let ioi ← argAt a2 0
+      match a.pre with
+      | [f] => if Extracted.reshapeMergeOperands then pure (some (.merge f ioi shape)) else throw (.unsupported "merge operands")
+      | _ => pure none
+    | none => pure none
+
+def decideTranspose (S : Store) (pat : FnPat) (i : Nat) : R (Option Action) := do
+  match ← unaryCallOf S pat i with
+  | none => pure none
+  | some (a, input, perm) =>
+    if ← noopTest S input perm (fun p ishape => Extracted.transposeNoop p ishape.length) then pure (some (.fwd input)) else
+    match ← innerCall S pat input with
+    | some a2 => do
+      let ioi ← argAt a2 0
+      let perm1 ← argAt a2 1
+      match seqNats perm1, seqNats perm with
+      | some p1, some p2 =>
+        match Extracted.composePerm p1 p2 with
+        | some p =>
+          match a.pre with
+          | [f] => if Extracted.transposeMergeOperands then pure (some (.merge f ioi (natsToks p))) else throw (.unsupported "merge operands")
+          | _ => pure none
+        | none => throw (.py "IndexError")
+      | _, _ => throw (.unsupported "permutation literal that is not a sequence of non-negative ints")
+    | none => pure none
+
+def decideBroadcast (S : Store) (pat : FnPat) (i : Nat) : R (Option Action) := do
+  match ← unaryCallOf S pat i with
+  | none => pure none
+  | some (_, input, shape) =>
+    if ← noopTest S input shape Extracted.broadcastNoop then pure (some (.fwd input)) else pure none
+
+def decideConcat (S : Store) (pat : FnPat) (i : Nat) : R (Option Action) :=
+  match S.callOf [.ref i] pat with
+  | none => pure none
+  | some a => do
+    let tensors ← argAt a 0
+    match tensors with
+    | .open_ .tuple n :: rest | .open_ .list n :: rest =>
+      if Extracted.concatNoop n then pure (some (.fwd rest)) else pure none
+    | _ => pure none
+
+def decideInline (S : Store) (fuel : Nat) (k : Nat) : R (Option Action) :=
+  match S.graphs[k]? with
+  | none => throw (.unsupported "dangling graph reference")
+  | some g => do
+    let output ← skipId S g.output
+    match output with
+    | [.ref j] =>
+      match S.appOf j with
+      | some (a, _, _) =>
+        if a.head == .call && a.kwargs.isEmpty then do
+          let fins ← a.args.mapM (skipId S)
+          if fins != g.inputs.map (fun i => [Tok.ref i]) then pure none else
+          match a.pre with
+          | [f] => do
+            let dep ← (match f with
+              | [.ref fi] => g.inputs.anyM (fun i => dependsOn S fuel fi i)
+              | _ => pure false)
+            if dep then pure none else pure (some (.fwd f))
+          | _ => throw (.unsupported "malformed Call")
+        else pure none
+      | none => pure none
+    | _ => pure none
+
+def decideCast (S : Store) (i : Nat) : R (Option Action) :=
+  match S.appOf i with
+  | some (a, base, _) =>
+    if a.head == .cast then
+      match a.pre with
+      | [[.ref j]] =>
+        -- `input_signature == output_signature`: a single output tracer of the same tracer type
+        if a.out == [.ref 0] && S.tyOf j == S.tyOf base && (S.tyOf j).isSome then pure (some (.fwd [.ref j])) else pure none
+      | _ => pure none
+    else pure none
+  | none => pure none
+
 /-- One pattern tried on object `x` (`pattern(x, transform)` up to the calls of `transform`): `none` = `(False, None)`. -/
 def Pattern.decide (S : Store) (fuel : Nat) (p : Pattern) (x : Tok) : R (Option Action) :=
   match p, x with
-  | .skipReshape pat, .ref i =>
-    match S.callOf [.ref i] pat with
-    | none => pure none
-    | some a => do
-      let input ← argAt a 0
-      if S.isValue input then pure none else
-      let shape ← argAt a 1
-      let noop ← (if isSeq shape then do
-          let ishape ← S.shapeOf input
-          pure (match seqNats shape with | some s => Extracted.reshapeNoop s ishape | none => false)
-        else pure false)
-      if noop then pure (some (.fwd input)) else
-      let input' ← skipId S input
-      match S.callOf input' pat with
-      | some a2 => do
-        let ioi ← argAt a2 0
-        match a.pre with
-        | [f] => if Extracted.reshapeMergeOperands then pure (some (.merge f ioi shape)) else throw (.unsupported "merge operands")
-        | _ => pure none
-      | none => pure none
-  | .skipTranspose pat, .ref i =>
-    match S.callOf [.ref i] pat with
-    | none => pure none
-    | some a => do
-      let input ← argAt a 0
-      if S.isValue input then pure none else
-      let perm ← argAt a 1
-      let noop ← (if isSeq perm then do
-          let ishape ← S.shapeOf input
-          pure (match seqNats perm with | some p => Extracted.transposeNoop p ishape.length | none => false)
-        else pure false)
-      if noop then pure (some (.fwd input)) else
-      let input' ← skipId S input
-      match S.callOf input' pat with
-      | some a2 => do
-        let ioi ← argAt a2 0
-        let perm1 ← argAt a2 1
-        match seqNats perm1, seqNats perm with
-        | some p1, some p2 =>
-          match Extracted.composePerm p1 p2 with
-          | some p =>
-            match a.pre with
-            | [f] => if Extracted.transposeMergeOperands then pure (some (.merge f ioi (natsToks p))) else throw (.unsupported "merge operands")
-            | _ => pure none
-          | none => throw (.py "IndexError")
-        | _, _ => throw (.unsupported "permutation literal that is not a sequence of non-negative ints")
-      | none => pure none
-  | .skipBroadcastTo pat, .ref i =>
-    match S.callOf [.ref i] pat with
-    | none => pure none
-    | some a => do
-      let input ← argAt a 0
-      if S.isValue input then pure none else
-      let shape ← argAt a 1
-      let noop ← (if isSeq shape then do
-          let ishape ← S.shapeOf input
-          pure (match seqNats shape with | some s => Extracted.broadcastNoop s ishape | none => false)
-        else pure false)
-      if noop then pure (some (.fwd input)) else pure none
-  | .skipConcatenate pat, .ref i =>
-    match S.callOf [.ref i] pat with
-    | none => pure none
-    | some a => do
-      let tensors ← argAt a 0
-      match tensors with
-      | .open_ .tuple n :: rest | .open_ .list n :: rest =>
-        if Extracted.concatNoop n then pure (some (.fwd rest)) else pure none
-      | _ => pure none
-  | .inlineGraph, .gref k =>
-    match S.graphs[k]? with
-    | none => throw (.unsupported "dangling graph reference")
-    | some g => do
-      let output ← skipId S g.output
-      match output with
-      | [.ref j] =>
-        match S.appOf j with
-        | some (a, _, _) =>
-          if a.head == .call && a.kwargs.isEmpty then do
-            let fins ← a.args.mapM (skipId S)
-            if fins != g.inputs.map (fun i => [Tok.ref i]) then pure none else
-            match a.pre with
-            | [f] => do
-              let dep ← (match f with
-                | [.ref fi] => g.inputs.anyM (fun i => dependsOn S fuel fi i)
-                | _ => pure false)
-              if dep then pure none else pure (some (.fwd f))
-            | _ => throw (.unsupported "malformed Call")
-          else pure none
-        | none => pure none
-      | _ => pure none
-  | .skipCast, .ref i =>
-    match S.appOf i with
-    | some (a, base, _) =>
-      if a.head == .cast then
-        match a.pre with
-        | [[.ref j]] =>
-          -- `input_signature == output_signature`: a single output tracer of the same tracer type
-          if a.out == [.ref 0] && S.tyOf j == S.tyOf base && (S.tyOf j).isSome then pure (some (.fwd [.ref j])) else pure none
-        | _ => pure none
-      else pure none
-    | none => pure none
+  | .skipReshape pat, .ref i => decideReshape S pat i
+  | .skipTranspose pat, .ref i => decideTranspose S pat i
+  | .skipBroadcastTo pat, .ref i => decideBroadcast S pat i
+  | .skipConcatenate pat, .ref i => decideConcat S pat i
+  | .inlineGraph, .gref k => decideInline S fuel k
+  | .skipCast, .ref i => decideCast S i
   | _, _ => pure none
 
 /-- `for pattern in self.optimizations: changed, newobj = pattern(x, …); if changed: …` -- the first pattern that
